@@ -42,6 +42,8 @@ type call struct {
 	m     canvas.Matrix
 	kind  int
 	img   image.Image
+	// the stroke outline Stroke(Dash(path, ScaleDash…)) is empty (the path lies in a gap of the dash pattern)
+	outlineEmpty bool
 }
 
 type recorder struct{ calls []call }
@@ -229,6 +231,17 @@ func (g *gen) program() []call {
 			p = canvas.Rectangle(30, 30).Append(canvas.Rectangle(10, 10).Translate(10, 10)) // nested, same direction
 		}
 		ctx.DrawPath(c.GenCoord(), c.GenCoord(), p)
+		if c.Chance(0.04) {
+			// a RenderPath call Context.DrawPath would no longer make (7030ab4): the whole path lies in a gap of the
+			// width-scaled dash pattern, so the stroke outline is empty; renderers must cope with it
+			st := ctx.Style
+			st.Stroke = canvas.Paint{Color: palette[c.Intn(len(palette)-1)]}
+			st.StrokeWidth, st.Dashes, st.DashOffset = 3, []float64{2, 1, 1, 1}, 2.5
+			st.StrokeJoiner = g.joiner()
+			v, _ := g.view()
+			rec.RenderPath(canvas.MustParseSVGPath("M0 0L0.3 0"), st, v)
+			c.Count("item:direct-call-in-dash-gap")
+		}
 	}
 	var out []call
 	for _, cl := range rec.calls {
@@ -259,11 +272,11 @@ func (g *gen) program() []call {
 				c.Count("skip:Dash/Stroke-panics(C04/C05)")
 				continue
 			}
-			// a stroke whose outline is empty (the whole path lies in a gap of the width-scaled dash pattern): the
-			// outline fallback has nothing to draw; exercised by a targeted probe, not by the random programs
+			// a stroke whose outline is empty (the whole path lies in a gap of the width-scaled dash pattern): the outline
+			// fallback has nothing to draw
 			if outline.Empty() {
-				c.Count("skip:empty-stroke-outline")
-				continue
+				c.Count("draw:empty-stroke-outline")
+				cl.outlineEmpty = true
 			}
 		}
 		out = append(out, cl)
@@ -480,6 +493,7 @@ func progLine(tag string, calls []call, grads []canvas.Gradient, dec func(float6
 		closed := lastIsClose(cl.path)
 		fmt.Fprintf(&sb, " %s %s %s %d", hc.B(s.FillRule == canvas.EvenOdd),
 			hc.Hs(m[0][0], m[0][1], m[0][2], m[1][0], m[1][1], m[1][2]), hc.B(closed), i)
+		sb.WriteString(" " + hc.B(cl.outlineEmpty))
 	}
 	return sb.String()
 }
